@@ -5,7 +5,8 @@ from ..common import Check, hx, tags_tok
 from .. import jsongen
 
 THEOREMS = ['accepted_is_wellformed', 'accepted_values_in_range', 'created_at_literal', 'created_at_wide_rejected',
-            'kind_literal', 'kind_wide_rejected', 'any_order_any_whitespace', 'canonical_text_faithful']
+            'kind_literal', 'kind_wide_rejected', 'any_order_any_whitespace', 'canonical_text_faithful',
+            'any_order_any_whitespace_unknown_members', 'complete_any_json_spelling']
 
 
 def check_values(c, text, consumed, acc, line, what):
